@@ -46,13 +46,14 @@ func callOpt(x any, method string, args ...bool) {
 func optBits(x any) uint16 { return stackage.VerifDump(x).Opt }
 
 type optSetup struct {
-	mutex   bool
-	kind    string
-	isCond  bool
-	methods []string          // tri-state methods
-	canon   map[string]string // method -> canonical option name (the Set* form that drives the same bit)
-	bit     map[string]uint16 // canonical option -> raw bit (derived empirically)
-	ronly   string
+	rejected bool // a validity closure that currently rejects the stack is installed
+	mutex    bool
+	kind     string
+	isCond   bool
+	methods  []string          // tri-state methods
+	canon    map[string]string // method -> canonical option name (the Set* form that drives the same bit)
+	bit      map[string]uint16 // canonical option -> raw bit (derived empirically)
+	ronly    string
 }
 
 func (su *optSetup) fresh() any {
@@ -62,6 +63,9 @@ func (su *optSetup) fresh() any {
 	s := newStackKind(su.kind).Push("a", stackage.List().Push("b", "c"), "d")
 	if su.mutex {
 		s.SetMutex() // the option setters then run through lock()/unlock()
+	}
+	if su.rejected {
+		s.SetValidityPolicy(func(...any) error { return errCat }) // getters must not depend on a closure's verdict
 	}
 	return s
 }
@@ -202,6 +206,11 @@ func c18OptMachine(c *Ctx, su *optSetup) *Machine[*optInst] {
 			}
 			// behaviour of the options without a getter, and a differential against the directly built twin
 			twin := direct(in.on)
+			if su.rejected {
+				// a rejected stack renders as "": the String-based observations do not apply
+				c.Nontrivial(name + fmt.Sprint(su.modelBits(in.on)) + opName(o))
+				return out
+			}
 			if gs, ws := fmt.Sprint(in.x), fmt.Sprint(twin); gs != ws {
 				bad("string-differs:"+o.method, "String()=%q but an instance with the same options set directly renders %q (model %v)", gs, ws, onList(in.on))
 			}
@@ -765,8 +774,14 @@ func init() {
 		if sm2, e2 := newOptSetup("OR", false, true); e2 == "" {
 			om = append(om, c18OptMachine(c, sm2))
 		}
+		if sm3, e3 := newOptSetup("AND", false); e3 == "" {
+			sm3.rejected = true
+			m3 := c18OptMachine(c, sm3)
+			m3.Name += " validity-rejecting"
+			om = append(om, m3)
+		}
 		sm = append(sm, c18SetMachine(c, "NOT mutex", 0))
-		lm = append(lm, c18LvlMachine(c, "AND", tier == "thorough"), c18LvlMachine(c, "Condition", tier == "thorough"))
+		lm = append(lm, c18LvlMachine(c, "AND", true), c18LvlMachine(c, "Condition", tier == "thorough"))
 		return
 	}
 	register(&Check{ID: "C18", Engine: "A", Run: func(c *Ctx) {
